@@ -86,7 +86,17 @@ func vScenarioC14(rc *runCtx) {
 	}
 	// a key typed between the trigger and the client's ACT (a laggy hop, an impatient user) sits in front of the ACT
 	typeAhead := !cfg.tunnel && tp.Bool("c14.typeahead", 150)
-	ending := []string{"exit", "user-stop", "server-disk-error", "sigint"}[tp.Pick("c14.ending", 4, 2, 2, 2)]
+	ending := []string{"exit", "user-stop", "server-disk-error", "sigint", "server-killed"}[tp.Pick("c14.ending", 4, 2, 2, 2, 2)]
+	if ending == "server-killed" && (cfg.timeout == 0 || cfg.fork) {
+		// (with "never time out" a client whose server has vanished waits for ever, as asked; a transfer handed to
+		// the background goes on there until its own timeout, which this scenario does not wait for)
+		if cfg.timeout == 0 {
+			cfg.timeout = 5
+		}
+		cfg.fork = false
+		o.tunnelFast = false
+		o.flags = cfg.flags()
+	}
 	if ending == "refused" {
 		o.actEdit = func(act map[string]any) {
 			for k, v := range caps {
@@ -135,6 +145,14 @@ func vScenarioC14(rc *runCtx) {
 		endHook = vOnChunk(rc, x, armed, 150, func() {
 			fired = true
 			w.Go("signal", nil, func() { x.server.Signal(os.Interrupt) })
+		})
+	case "server-killed":
+		// the server process is gone from one instant to the next (kill -9, the machine, the link behind the last
+		// relay): it says nothing more, its connections close
+		endHook = vOnChunk(rc, x, armed, 150, func() {
+			fired = true
+			rc.fault("server-killed")
+			x.server.Kill()
 		})
 	case "server-disk-error":
 		d := &verifsim.DiskFaults{ReadErr: syscall.EIO, WriteErr: syscall.ENOSPC}
@@ -268,6 +286,13 @@ func vScenarioC14(rc *runCtx) {
 	}
 	// 4. recovery: every relay is back in standby, transparent in both directions
 	x.settle(1500 * time.Millisecond)
+	{
+		var sts []int32
+		for _, r := range x.relay {
+			sts = append(sts, int32(r.relayStatus.Load()))
+		}
+		rc.res.Scenario["relay_status_after_first"] = fmt.Sprint(sts)
+	}
 	for i, r := range x.relay {
 		if st := r.relayStatus.Load(); st != kRelayStandBy {
 			rc.violate("recovery", fmt.Sprintf("C14:not-standby:%s:%d", ending, st), "after the transfer ended (%s) relay %d is still in state %d (0 standby, 1 handshaking, 2 transferring); client fail=%q server fail=%q",
